@@ -27,12 +27,13 @@ FORBIDDEN = re.compile(r'\b(Admitted|admit|Axiom|Axioms|Parameter|Parameters|Con
 
 # property -> (Properties file, [tie files], human description of the theorems)
 TIE_FOR = {
-    'C01': ['TieClasses'], 'C02': ['TieClasses'], 'C03': ['TieClasses'], 'C04': ['TieClasses'],
-    'C05': ['TieClasses', 'TieReducers'], 'C06': ['TieClasses', 'TieReducers'],
-    'C07': ['TieClasses', 'TieReducers'], 'C08': ['TieReducers'],
+    'C01': ['TieClasses', 'TieMath'], 'C02': ['TieClasses', 'TieMath'], 'C03': ['TieClasses', 'TieMath'],
+    'C04': ['TieClasses', 'TieMath'],
+    'C05': ['TieClasses', 'TieReducers'], 'C06': ['TieClasses', 'TieReducers', 'TieMath'],
+    'C07': ['TieClasses', 'TieReducers', 'TieMath'], 'C08': ['TieReducers'],
     'C09': ['TieCache', 'TieBound'], 'C10': ['TieWrites'], 'C11': ['TieReducers', 'TieBound'],
     'C12': ['TieClasses'], 'C13': ['TiePublic'], 'C14': ['TieSets'], 'C15': ['TieOperators'],
-    'C16': ['TieClasses'], 'C17': ['TieClasses'], 'C18': ['TieSets'],
+    'C16': ['TieClasses'], 'C17': ['TieClasses', 'TieMath'], 'C18': ['TieSets'],
 }
 
 
